@@ -86,11 +86,11 @@ typedef enum {
 
 
 /* shifts based on type */
-static const unsigned int tsh[] = {
-	[TYP_I] = 401U,
-	[TYP_II] = 301U,
-	[TYP_III] = 1U,
-	[TYP_IV] = -199U,
+static const int tsh[] = {
+	[TYP_I] = 401,
+	[TYP_II] = 301,
+	[TYP_III] = 1,
+	[TYP_IV] = -199,
 };
 
 /* epochs in julian days */
@@ -110,6 +110,16 @@ ht2mjd(const unsigned int *cal, size_t nm, struct ymd_s h)
 	return MT(cal)[i] + (h.d - 1U);
 }
 
+static inline __attribute__((const, pure)) int
+hij_ybeg(hij_typ_t t, int k)
+{
+/* return the number of days before year K of a 30-year cycle,
+ * that is floor((K * 10631 / 30) + shift), K can be -1 and
+ * the shift of type IV is negative, so mind the floor */
+	const int x = k * 1063100 + tsh[t];
+	return x / 3000 - (x % 3000 < 0);
+}
+
 static inline __attribute__((const, pure)) mjd_t
 hij2mjd(hij_typ_t t, hij_epo_t e, struct ymd_s h)
 {
@@ -119,7 +129,7 @@ hij2mjd(hij_typ_t t, hij_epo_t e, struct ymd_s h)
 	const unsigned int doy = m[h.m] + h.d;
 	const unsigned int cyc = h.y / 30U;
 	const unsigned int k = h.y % 30U;
-	const unsigned int z1 = cyc * 10631U + (k * 1063100U + tsh[t]) / 3000U + doy;
+	const unsigned int z1 = cyc * 10631U + hij_ybeg(t, k) + doy;
 	return z1 + epo[e] - 2400000U;
 }
 
@@ -184,11 +194,15 @@ mjd2hij(hij_typ_t t, hij_epo_t e, mjd_t j)
 	const unsigned int z = j + 2400000U - epo[e];
 	const unsigned int cyc = z / 10631U;
 	const unsigned int z1 = z % 10631U;
-	const unsigned int k = (3000U * z1 - tsh[t]) / 1063100U - !z1;
-	const unsigned int z2 = z1 - (((int)k * 1063100 + tsh[t]) / 3000) + !z1;
+	/* the first day(s) of a cycle may belong to year -1 of that cycle */
+	const int k = 3000 * (int)z1 < tsh[t]
+		? -1 : (3000 * (int)z1 - tsh[t]) / 1063100;
+	const unsigned int z2 = z1 - hij_ybeg(t, k);
 	/* output */
 	const unsigned int y = 30U * cyc + k;
-	const unsigned int m = (10000U * z2 + 285001U) / 295000U;
+	/* day 355 of an intercalary year is 12-30, not 13-01 */
+	const unsigned int m13 = (10000U * z2 + 285001U) / 295000U;
+	const unsigned int m = m13 <= 12U ? m13 : 12U;
 	const unsigned int d = z2 - (295001 * m - 290000U) / 10000U;
 	return (struct ymd_s){y, m, d};
 }
@@ -228,10 +242,8 @@ __hij_inty_p(hij_typ_t t, hij_epo_t UNUSED(e), unsigned int y)
  * type II:  2, 5, 7, 10, 13, 16, 18, 21, 24, 26 & 29 as intercalary years
  * type III: 2, 5, 8, 10, 13, 16, 19, 21, 24, 27 & 29 as intercalary years
  * type IV:  2, 5, 8, 11, 13, 16, 19, 21, 24, 27 & 30 as intercalary years */
-	const unsigned int k = y % 30U;
-	const unsigned int z1 = ((k * 1063100U + tsh[t]) / 3000U + 355U) % 10631U;
-	const unsigned int kr = (3000U * z1 - tsh[t]) / 1063100U - !z1;
-	return z1 - (((int)kr * 1063100 + tsh[t]) / 3000) + !z1 != 1;
+	const int k = y % 30U;
+	return hij_ybeg(t, k + 1) - hij_ybeg(t, k) == 355;
 }
 
 static __attribute__((const, pure)) inline unsigned int
